@@ -50,8 +50,11 @@ RULE = ("fonts built with marker subclasses for a random subset of the 17 roles 
 ASSUMPTIONS = [
     "registered classes are subclasses of defcon's default class for the role that do not override __init__ or the "
     "instantiate* factories (marker subclasses)",
-    "objects the user constructs himself and hands in (appendContour/appendComponent/appendPoint with a foreign object) are "
-    "not creation paths: points are inserted through contour.pointClass, which is what the class properties are for",
+    "contours, components and points the user constructs himself and hands in (appendContour/appendComponent/appendPoint) "
+    "are stored as they are - the model says so (`adopt`), the code is compared with it, the oracle does not demand their "
+    "class: points are inserted through contour.pointClass, which is what the class properties are for; anchors, guidelines "
+    "and glyphs handed in ARE demanded to come out as objects of the registered class",
+    "an 'unrelated subclass' is a marker subclass of the role's defcon class that is registered nowhere",
     "objects inside a representation (the flattened contour's points) are not demanded (exercised as noise only)",
     "UFO 3 on disk; single process",
 ]
